@@ -82,8 +82,28 @@ class Contract:
     filename: str = "test/Verif.t.sol"
     fallback: list | None = None
     data: list = field(default_factory=list)  # asm items appended after all function bodies (data sections)
+    # immutables: {magic: value} - every PUSH32 operand equal to `magic` in the bodies is an immutable variable: zero in the
+    # artifact's runtime code (the placeholder solc leaves there), written by the constructor into the code it returns
+    immutables: dict = field(default_factory=dict)
 
     def runtime(self) -> bytes:
+        return self._runtime_and_patches()[0]
+
+    def _runtime_and_patches(self):
+        rt = bytearray(self._runtime_raw())
+        patches = []
+        for magic, val in self.immutables.items():
+            m = magic.to_bytes(32, "big")
+            i = rt.find(m)
+            while i >= 0:
+                if i == 0 or rt[i - 1] != 0x7F:
+                    raise ValueError("immutable magic value is not a PUSH32 operand")
+                patches.append((i, val))
+                rt[i : i + 32] = bytes(32)
+                i = rt.find(m, i + 32)
+        return bytes(rt), patches
+
+    def _runtime_raw(self) -> bytes:
         prog = [("PUSH", 0), "CALLDATALOAD", ("PUSH", 0xE0), "SHR"]
         for i, f in enumerate(self.fns):
             prog += ["DUP1", ("PUSHN", 4, int(selector(f.sig), 16)), "EQ", ("PUSHL", f"fn{i}"), "JUMPI"]
@@ -93,12 +113,23 @@ class Contract:
         return assemble(prog + self.data)
 
     def creation(self) -> bytes:
-        rt = self.runtime()
+        rt, patches = self._runtime_and_patches()
         pre = assemble(self.ctor) if self.ctor else b""
         # constructor body, then the standard CODECOPY/RETURN of the runtime (offsets shifted by len(pre))
         n = len(rt)
-        tail = assemble([("PUSHN", 2, n), "DUP1", ("PUSHN", 2, len(pre) + 13), ("PUSHN", 1, 0), "CODECOPY", ("PUSHN", 1, 0), "RETURN"])
-        assert len(tail) == 13
+        if not patches:
+            tail = assemble([("PUSHN", 2, n), "DUP1", ("PUSHN", 2, len(pre) + 13), ("PUSHN", 1, 0), "CODECOPY", ("PUSHN", 1, 0), "RETURN"])
+            assert len(tail) == 13
+            return pre + tail + rt
+        # ... with the immutables written into the copy before it is returned
+
+        def tail_for(off_rt):
+            t = [("PUSHN", 2, n), ("PUSHN", 2, off_rt), ("PUSHN", 1, 0), "CODECOPY"]
+            for o, val in patches:
+                t += [("PUSHN", 32, val), ("PUSHN", 2, o), "MSTORE"]
+            return assemble(t + [("PUSHN", 2, n), ("PUSHN", 1, 0), "RETURN"])
+
+        tail = tail_for(len(pre) + len(tail_for(0)))
         return pre + tail + rt
 
     def json(self) -> dict:
